@@ -7,7 +7,7 @@ use serde_json::Value;
 
 use crate::errors::Result;
 use crate::jsontypes::{RawSection, RawSectionOffset, RawSourceMap};
-use crate::types::{DecodedMap, SourceMap, SourceMapIndex};
+use crate::types::{DecodedMap, SourceMap, SourceMapIndex, Token};
 use crate::vlq::encode_vlq;
 
 pub trait Encodable {
@@ -18,6 +18,21 @@ pub fn encode<M: Encodable, W: Write>(sm: &M, mut w: W) -> Result<()> {
     let ty = sm.as_raw_sourcemap();
     serde_json::to_writer(&mut w, &ty)?;
     Ok(())
+}
+
+/// Returns `true` if everything that is written for `b` repeats what was written for `a`.
+///
+/// The original position of a token without a source and the name id of a token
+/// whose name does not resolve are never written, so they do not take part.
+fn is_same_segment(a: &Token<'_>, b: &Token<'_>) -> bool {
+    a.get_dst() == b.get_dst()
+        && a.is_range() == b.is_range()
+        && a.has_source() == b.has_source()
+        && (!a.has_source()
+            || (a.get_src_id() == b.get_src_id()
+                && a.get_src() == b.get_src()
+                && a.has_name() == b.has_name()
+                && (!a.has_name() || a.get_name_id() == b.get_name_id())))
 }
 
 fn encode_vlq_diff(out: &mut String, a: u32, b: u32) {
@@ -82,7 +97,11 @@ fn serialize_range_mappings(sm: &SourceMap) -> Option<String> {
         }
 
         // `serialize_mappings` does not emit a segment for a token that repeats its predecessor
-        if idx > idx_of_first_in_line && Some(&token) == sm.get_token(idx - 1).as_ref() {
+        if idx > idx_of_first_in_line
+            && sm
+                .get_token(idx - 1)
+                .is_some_and(|prev| is_same_segment(&prev, &token))
+        {
             skipped_in_line += 1;
             continue;
         }
@@ -130,7 +149,10 @@ fn serialize_mappings(sm: &SourceMap) -> String {
                 prev_dst_line += 1;
             }
         } else if idx > 0 {
-            if Some(&token) == sm.get_token(idx - 1).as_ref() {
+            if sm
+                .get_token(idx - 1)
+                .is_some_and(|prev| is_same_segment(&prev, &token))
+            {
                 continue;
             }
             rv.push(',');
